@@ -102,7 +102,7 @@ func applyServiceExtends(ctx context.Context, name string, services map[string]a
 		}
 	}
 
-	tracker, err = tracker.Add(filename, name)
+	tracker, err = tracker.Add(filename, ref)
 	if err != nil {
 		return nil, err
 	}
